@@ -731,6 +731,49 @@ def finding_locked_tag(ctx):
         c.cleanup()
 
 
+def finding_locked_tag_real(ctx):
+    """the real thing: a process that creates a node, a service and a publisher is killed on entering the final fchmod(0400) of
+    the publisher's port tag"""
+    c = Case()
+    try:
+        tr = c.dir + "/rec.txt"
+        strace(c, tr, ["owner-port"])
+        rec = canon_file(c, tr)
+        idx = [i for i, e in enumerate(rec.events) if e == "fchmod tag final"]
+    finally:
+        c.cleanup()
+    if len(idx) < 2:
+        return False, f"no port tag in the trace ({rec.events[-8:]})"
+    c = Case()
+    try:
+        strace(c, c.dir + "/kill.txt", ["owner-port"], inject=rec.at[idx[1]])
+        tags = sorted(oct(os.stat(p).st_mode & 0o777) for p in glob.glob(f"{c.root}/nodes/*/*.port_tag"))
+        s1 = c.survey()
+        s2 = c.survey()
+        return (tags == ["0o600"] and "clean=err:InternalError" in s1 and "clean=err:InternalError" in s2 and "list=Dead" in s2), \
+            f"port tag modes after the kill: {tags}; survivors: {s1}; again: {s2}"
+    finally:
+        c.cleanup()
+
+
+def finding_cleanup_failure(ctx):
+    """a dead node that used a service whose static config carries another iceoryx2 version: removing the node from the service fails"""
+    c = Case()
+    try:
+        subprocess.run([LIFE, "owner-port", c.cfg], capture_output=True, text=True, timeout=30)
+        for f in glob.glob(f"{c.root}/services/*.service"):
+            os.chmod(f, 0o600)
+            txt = open(f).read()
+            open(f, "w").write(re.sub(r"(?m)^minor = (\d+)$", lambda m: f"minor = {int(m.group(1)) + 1}", txt, count=1))
+            os.chmod(f, 0o400)
+        s1 = c.survey()
+        s2 = c.survey()
+        left = c.ls()
+        return ("list=Dead" in s1 and "clean=err:" in s1 and "list=-" in s2 and left == "det,dir,tag"), f"survivors: {s1}; again: {s2}"
+    finally:
+        c.cleanup()
+
+
 def finding_double_acquire(ctx):
     impl, mod, left, mleft = sched_cleaners(ctx, [1] * 23 + [0] * 60, 2)
     return (impl == ["ok", "ok"]), f"two cleaners: {impl}"
@@ -766,6 +809,17 @@ FINDINGS = [
      "static-storage listing; the cleaner removes the details, fails at rmdir (ENOTEMPTY), abandons, and every later clean-up ends the same way: the node stays "
      "Dead for ever with token, directory and tag left (theorem locked_tag_uncollectable; replay with a hand-made 0600 tag)",
      finding_locked_tag),
+    ("finding:D26-publisher-killed-in-port-tag-creation-uncollectable",
+     "the same defect end to end: a process with a node, a publish-subscribe service and a publisher, killed on entering the final fchmod(0400) of the publisher's "
+     "port tag (static storage `create`: open(O_CREAT|O_EXCL, 0600) … fchmod(0400), node/mod.rs:1059-1081) leaves a 0600 port tag; every dead-node clean-up returns "
+     "InternalError, the node stays Dead for ever with its token, directory and tag (theorem locked_tag_uncollectable)",
+     finding_locked_tag_real),
+    ("finding:D28-failed-cleanup-removes-token-leaves-node-resources",
+     "DeadNodeView::remove_stale_resources_impl returns through `cleanup_failure?` (node/mod.rs:661, :707) with the Cleaner still a live local: it is dropped normally, "
+     "StateFiles::drop removes context / state / owner-lock, although tags, details, directory and the node's service registration and data segments were not removed. "
+     "Afterwards Node::list no longer shows the node and nothing ever collects the rest (replay: dead node with a publisher; the service's static config edited to another "
+     "iceoryx2 minor version so that removing the node from the service fails; not in the Lean model, which has no failing service-level removal)",
+     finding_cleanup_failure),
     ("finding:D27-second-cleaner-acquires-after-first-finished",
      "ProcessCleaner::new does not re-check the link count after a successful F_SETLK on the owner-lock file (process_state.rs:1258-1262): a cleaner that opened the "
      "three files before another cleaner removed them acquires the lock on the unlinked inode and reports a successful clean-up as well (benign: nothing is left to "
